@@ -117,6 +117,22 @@ func kindTypeOf(e sx.Sexp) (px.Type, bool) {
 			ts = append(ts, typeOf(t))
 		}
 		return types.NewCallableType(types.NewTupleType(ts, nil), nil, nil), true
+	case "callablex": // (callablex n|(T*) n|R n|B): NewCallableType(params Tuple, return type, block type), each absent or given
+		var ps, rt, bt px.Type
+		if a[0].IsList {
+			ts := make([]px.Type, 0, len(a[0].List))
+			for _, t := range a[0].List {
+				ts = append(ts, typeOf(t))
+			}
+			ps = types.NewTupleType(ts, nil)
+		}
+		if a[1].IsList || a[1].Atom != "n" {
+			rt = typeOf(a[1])
+		}
+		if a[2].IsList || a[2].Atom != "n" {
+			bt = typeOf(a[2])
+		}
+		return types.NewCallableType(ps, rt, bt), true
 	}
 	return nil, false
 }
@@ -216,18 +232,32 @@ func kindTypeStr(t px.Type) (string, bool) {
 		nav, _ := t.Get("navigation")
 		return "(like " + typeStr(base.(px.Type)) + " " + sx.Str(nav.String()).Atom + ")", true
 	case *types.CallableType:
-		if t.ParametersType() == nil {
-			return "callable", true
-		}
-		pt, ok := t.ParametersType().(*types.TupleType)
-		if !ok || pt == nil {
-			return "callable", true
-		}
+		ps, rs, bs := "n", "n", "n"
 		xs := []string{}
-		for _, m := range pt.Types() {
-			xs = append(xs, " "+typeStr(m))
+		if t.ParametersType() != nil {
+			if pt, ok := t.ParametersType().(*types.TupleType); ok && pt != nil {
+				for _, m := range pt.Types() {
+					xs = append(xs, typeStr(m))
+				}
+				ps = "(" + strings.Join(xs, " ") + ")"
+			}
 		}
-		return "(callable" + strings.Join(xs, "") + ")", true
+		if rt := t.ReturnType(); rt != nil {
+			rs = typeStr(rt)
+		}
+		if bt := t.BlockType(); bt != nil {
+			bs = typeStr(bt)
+		}
+		switch {
+		case rs == "n" && bs == "n" && ps == "n":
+			return "callable", true
+		case rs == "n" && bs == "n":
+			if len(xs) == 0 {
+				return "(callable)", true
+			}
+			return "(callable " + strings.Join(xs, " ") + ")", true
+		}
+		return "(callablex " + ps + " " + rs + " " + bs + ")", true
 	case px.StringType:
 		if v := t.Value(); v != nil {
 			return "(strv " + sx.Str(*v).Atom + ")", true
@@ -291,6 +321,8 @@ var kindTypeLits = []string{
 	"(like any x)", "(like str x)", "(like str x61)", "(like str x62)", "(like any x61)", "(like (int 1 2) x61)",
 	"callable", "(callable)", "(callable str)", "(callable (int 1 2))", "(callable str (int 1 2))", "(callable unit str)", "(callable str unit)", "(callable unit)",
 	"(callable (var str undef))", "(callable (var undef str))",
+	"(callablex n str n)", "(callablex n (int 1 2) n)", "(callablex (str) str n)", "(callablex (str) n callable)", "(callablex (str) n (callable str))", "(callablex n n callable)",
+	"(callablex (str) (int 1 2) (callable str))", "(callablex () str n)", "(callablex n undef n)", "(callablex (str) (var str undef) n)", "(callablex (str) (var undef str) n)",
 	"(tref x466f6f)", "(tref x426172)", "(tref x556e7265736f6c7665645265666572656e6365)", "(tref x)",
 	"semver", "(semver x312e78 (se (ge 1 0 0 x x) (lt 2 0 0 x x)))", "(semver x (se (ge 1 0 0 x x) (lt 2 0 0 x x)))", "(semver x3e3d312e302e30203c322e302e30 (se (ge 1 0 0 x x) (lt 2 0 0 x x)))",
 	"(semver x322e78 (se (ge 2 0 0 x x) (lt 3 0 0 x x)))", "(semver x312e322e33 (eq 1 2 3 x x))", "(semver x (eq 1 2 3 x x))", "(semver x312e78207c7c20332e78 (se (ge 1 0 0 x x) (lt 2 0 0 x x)) (se (ge 3 0 0 x x) (lt 4 0 0 x x)))",
@@ -328,7 +360,24 @@ func randKindType(r *rand.Rand, depth int) string {
 		}
 		return strconv.FormatInt(lo, 10) + " " + hi
 	}
-	switch r.Intn(18) {
+	switch r.Intn(19) {
+	case 18:
+		ps, rt, bt := "n", "n", "n"
+		if r.Intn(3) > 0 {
+			ps = "(" + sub() + ")"
+		}
+		if r.Intn(2) == 0 {
+			rt = sub()
+		}
+		if r.Intn(3) == 0 {
+			bt = []string{"callable", "(callable str)"}[r.Intn(2)]
+		}
+		for _, x := range []*string{&ps, &rt} {
+			if strings.Contains(*x, "like") {
+				*x = "str"
+			}
+		}
+		return "(callablex " + ps + " " + rt + " " + bt + ")"
 	case 17:
 		n := r.Intn(3)
 		s := "(struct"
@@ -530,7 +579,27 @@ func mutKindType(r *rand.Rand, t sx.Sexp) (sx.Sexp, bool) {
 			xs[1] = sx.Str("")
 		}
 		return sx.T("runtime", xs...), true
+	case "callablex":
+		xs := append([]sx.Sexp{}, a...)
+		i := r.Intn(3)
+		if xs[i].IsList || xs[i].Atom != "n" {
+			if r.Intn(2) == 0 {
+				xs[i] = sx.A("n")
+			} else if i > 0 {
+				xs[i] = mutType(r, xs[i])
+			} else {
+				xs[i] = sx.L(append(append([]sx.Sexp{}, xs[i].List...), mk("str"))...)
+			}
+		} else if i == 0 {
+			xs[i] = sx.L(mk("str"))
+		} else {
+			xs[i] = mk("str")
+		}
+		return sx.T("callablex", xs...), true
 	case "callable":
+		if r.Intn(3) == 0 {
+			return sx.T("callablex", sx.L(a...), mk("str"), sx.A("n")), true
+		}
 		if r.Intn(2) == 0 {
 			return sx.T("tup", sx.L(a...)), true
 		}
